@@ -5,33 +5,6 @@ From PV Require Import BaseFacts VarintFacts VarintCore ZigZagFacts Utf8Facts Se
 From Coq Require Import Lia.
 Open Scope N_scope.
 
-(* JSON values as serde_json holds them: strings are valid UTF-8 byte strings, object keys are
-   strictly ascending, arrays and objects of moderate length (beyond that: known finding F9) *)
-Fixpoint json_wf (j : json) : bool :=
-  match j with
-  | JStr bs => bytes_okb bs && utf8_valid bs && (N.of_nat (length bs) <? 2 ^ 64)
-  | JArr l => forallb json_wf l && (N.of_nat (length l) <=? 65536)
-  | JObj kvs =>
-    forallb (fun kv => bytes_okb (fst kv) && utf8_valid (fst kv) && (N.of_nat (length (fst kv)) <? 2 ^ 64) && json_wf (snd kv)) kvs
-    && keys_ascending (map fst kvs) && (N.of_nat (length kvs) <=? 65536)
-  | _ => true
-  end.
-
-(* schemas outside the known classes F7 (nullable payload directly inside Option) and F8
-   (duplicate field names in one struct body) *)
-Definition body_ok (ok : schema -> bool) (k : dkind) (fs : list (str * schema)) : bool :=
-  forallb (fun f => ok (snd f)) fs && match k with DStruct => names_distinct (map fst fs) | _ => true end.
-Fixpoint reenc_scope (s : schema) : bool :=
-  match s with
-  | SPrim _ => true
-  | SOption t => negb (nullable t) && reenc_scope t
-  | SSeq t => reenc_scope t
-  | STuple ts => forallb reenc_scope ts
-  | SMap k v => reenc_scope v
-  | SStruct _ k fs => body_ok reenc_scope k fs
-  | SEnum _ vs => forallb (fun v => body_ok reenc_scope (snd (fst v)) (snd v)) vs
-  end.
-
 Section Reenc.
   Variable int_to_f64 : Z -> N.
   Variable narrow widen : N -> N.
@@ -70,27 +43,538 @@ Section Reenc.
       + apply (prim_agree int_to_f64 narrow widen narrow_widen 0 v p Hc Hu Hp).
   Qed.
 
-  Lemma in_rangeb_fits t z : fits t z = in_rangeb t z. Proof. reflexivity. Qed.
-
-  Ltac lift_int K :=
-    match goal with
-    | Hs : context [fits ?T ?z] |- _ =>
-      let F := fresh "F" in destruct (fits T z) eqn:F; [|discriminate Hs];
-      eapply (scalar_lift _ (NInt K z)); [reflexivity| | | discriminate | | eassumption]
+  Definition is_int_prim (p : prim) : bool :=
+    match p with
+    | PI8 | PU8 | PI16 | PI32 | PI64 | PI128 | PU16 | PU32 | PU64 | PU128 | PUsize | PIsize => true
+    | _ => false
     end.
+
+  Ltac bools :=
+    repeat match goal with
+           | H : (_ && _)%bool = true |- _ => apply andb_prop in H as [? ?]
+           | H : (_ <=? _)%Z = true |- _ => apply Z.leb_le in H
+           | H : (_ <? _)%Z = true |- _ => apply Z.ltb_lt in H
+           end.
+  Ltac goal_bools :=
+    repeat match goal with
+           | |- (_ && _)%bool = true => apply andb_true_intro; split
+           | |- (_ <=? _)%Z = true => apply Z.leb_le
+           | |- (_ <? _)%Z = true => apply Z.ltb_lt
+           end.
+
+  Lemma int_arm_inv p j bs :
+    is_int_prim p = true -> ser_prim int_to_f64 narrow p j = DOk bs ->
+    exists k z, j = JInt z /\ prim_conforms 0 (NInt k z) p = true /\ unamb (NInt k z) = true.
+  Proof.
+    intros Hi Hs.
+    destruct p; try discriminate Hi; cbn [ser_prim] in Hs; cbv zeta in Hs; destruct j; try discriminate Hs;
+      cbn [as_i64 as_u64] in Hs;
+      repeat match type of Hs with context [if ?c then _ else _] => let E := fresh "E" in destruct c eqn:E; try discriminate Hs end;
+      unfold fits, in_rangeb in *; cbn [signed bits i8 i16 i32 i64 i128 u8 u16 u32 u64 u128 usize isize] in *; bools.
+    - exists I8, z. split; [reflexivity|]. split; [cbn [prim_conforms erase prim_ty has_type]; unfold in_rangeb; cbn; goal_bools; first [reflexivity | lia] | cbn [unamb]; unfold ik_signed; cbn; goal_bools; lia].
+    - exists U8, z. split; [reflexivity|]. split; [cbn [prim_conforms erase prim_ty has_type]; unfold in_rangeb; cbn; goal_bools; first [reflexivity | lia] | cbn [unamb]; unfold ik_signed; cbn; goal_bools; lia].
+    - exists I16, z. split; [reflexivity|]. split; [cbn [prim_conforms erase prim_ty has_type]; unfold in_rangeb; cbn; goal_bools; first [reflexivity | lia] | cbn [unamb]; unfold ik_signed; cbn; goal_bools; lia].
+    - exists I32, z. split; [reflexivity|]. split; [cbn [prim_conforms erase prim_ty has_type]; unfold in_rangeb; cbn; goal_bools; first [reflexivity | lia] | cbn [unamb]; unfold ik_signed; cbn; goal_bools; lia].
+    - exists I64, z. split; [reflexivity|]. split; [cbn [prim_conforms erase prim_ty has_type]; unfold in_rangeb; cbn; goal_bools; first [reflexivity | lia] | cbn [unamb]; unfold ik_signed; cbn; goal_bools; lia].
+    - exists I128, z. split; [reflexivity|]. split; [cbn [prim_conforms erase prim_ty has_type]; unfold in_rangeb; cbn; goal_bools; first [reflexivity | lia] | cbn [unamb]; unfold ik_signed; cbn; goal_bools; lia].
+    - exists U16, z. split; [reflexivity|]. split; [cbn [prim_conforms erase prim_ty has_type]; unfold in_rangeb; cbn; goal_bools; first [reflexivity | lia] | cbn [unamb]; unfold ik_signed; cbn; goal_bools; lia].
+    - exists U32, z. split; [reflexivity|]. split; [cbn [prim_conforms erase prim_ty has_type]; unfold in_rangeb; cbn; goal_bools; first [reflexivity | lia] | cbn [unamb]; unfold ik_signed; cbn; goal_bools; lia].
+    - exists U64, z. split; [reflexivity|]. split; [cbn [prim_conforms erase prim_ty has_type]; unfold in_rangeb; cbn; goal_bools; first [reflexivity | lia] | cbn [unamb]; unfold ik_signed; cbn; goal_bools; lia].
+    - exists U128, z. split; [reflexivity|]. split; [cbn [prim_conforms erase prim_ty has_type]; unfold in_rangeb; cbn; goal_bools; first [reflexivity | lia] | cbn [unamb]; unfold ik_signed; cbn; goal_bools; lia].
+    - exists U64, z. split; [reflexivity|]. split; [cbn [prim_conforms erase prim_ty has_type]; unfold in_rangeb; cbn; goal_bools; first [reflexivity | lia] | cbn [unamb]; unfold ik_signed; cbn; goal_bools; lia].
+    - exists I64, z. split; [reflexivity|]. split; [cbn [prim_conforms erase prim_ty has_type]; unfold in_rangeb; cbn; goal_bools; first [reflexivity | lia] | cbn [unamb]; unfold ik_signed; cbn; goal_bools; lia].
+  Qed.
+
+  Lemma bytes_loop_inv : forall (l : list json) (acc : list byte) bs,
+    (fix go (l : list json) (acc : list byte) : ser_res :=
+       match l with
+       | [] => DOk (len_prefix (length acc) ++ rev acc)
+       | x :: r => match as_u64 x with
+                   | Some z => if fits u8 z then go r (Z.to_N z :: acc) else mismatch
+                   | None => mismatch
+                   end
+       end) l acc = DOk bs ->
+    exists bytes, l = map (fun b => JInt (Z.of_N b)) bytes /\ bytes_ok bytes /\
+                  bs = len_prefix (length acc + length bytes) ++ rev acc ++ bytes.
+  Proof.
+    induction l as [|x r IH]; intros acc bs H.
+    - injection H as <-. exists []. split; [reflexivity|]. split; [constructor|]. rewrite Nat.add_0_r, app_nil_r. reflexivity.
+    - destruct x; cbn [as_u64] in H; try discriminate H. destruct (0 <=? z)%Z eqn:E0; [|discriminate H].
+      destruct (fits u8 z) eqn:F; [|discriminate H]. apply IH in H as (bytes & -> & Hok & ->).
+      unfold fits, in_rangeb in F. cbn [signed bits u8] in F. apply andb_prop in F as [F1 F2]. apply Z.leb_le in F1. apply Z.ltb_lt in F2.
+      exists (Z.to_N z :: bytes). split; [cbn [map]; rewrite Z2N.id by lia; reflexivity|]. split.
+      + constructor; [unfold byte_ok; change 256 with (Z.to_N 256); apply Z2N.inj_lt; lia|exact Hok].
+      + cbn [length rev]. rewrite <- app_assoc. cbn [app]. f_equal. f_equal. lia.
+  Qed.
 
   Lemma prim_reenc p : reenc_at (SPrim p).
   Proof.
     unfold reenc_at. intros j bs rest Hwf Hs Hr. unfold SER, DE in *. cbn [dyn_ser dyn_de] in *.
-    rewrite (ser_no_panic_arm (SPrim p)) in Hs. rewrite (de_no_panic_arm (SPrim p)).
-    destruct p; cbn [ser_prim] in Hs; cbv zeta in Hs.
-    - (* bool *) destruct j; try discriminate Hs. eapply (scalar_lift PBool (NBool b)); try reflexivity; try eassumption; discriminate.
-    - (* i8 *) destruct j; try discriminate Hs. cbn [as_i64] in Hs. destruct (z <? 2 ^ 63)%Z eqn:E63; [|discriminate Hs].
-      destruct (fits i8 z) eqn:F; [|discriminate Hs].
-      eapply (scalar_lift PI8 (NInt I8 z)); try reflexivity; try eassumption; try discriminate.
-      + cbn [prim_conforms erase prim_ty has_type ikind_eqb andb]. exact F.
-      + cbn [unamb ik_signed ik_ity signed]. apply in_range_b in F. unfold in_range in F. cbn in F.
-        apply andb_true_intro. split; [apply Z.leb_le|apply Z.ltb_lt]; lia.
-      + cbn [ser_prim]. cbv zeta. cbn [as_i64]. rewrite E63, F. exact Hs.
-  Abort.
+    rewrite (ser_no_panic_arm (SPrim p)) in Hs. rewrite (ser_no_panic_arm (SPrim p)). rewrite (de_no_panic_arm (SPrim p)).
+    destruct (is_int_prim p) eqn:Hint.
+    { destruct (int_arm_inv p j bs Hint Hs) as (k & z & -> & Hc & Hu).
+      apply (scalar_lift p (NInt k z) (JInt z) bs rest eq_refl Hc Hu); [intros ->; discriminate Hint|exact Hs|exact Hr]. }
+    destruct p; try discriminate Hint; cbn [ser_prim] in Hs; cbv zeta in Hs.
+    - (* bool *) destruct j; try discriminate Hs.
+      apply (scalar_lift PBool (NBool b) (JBool b) bs rest eq_refl); try reflexivity; try assumption; discriminate.
+    - (* f32 *) destruct (as_f64 int_to_f64 j) as [b|] eqn:Ef; [|discriminate Hs].
+      destruct (f32_finite (narrow b)) eqn:Ff; [|discriminate Hs]. replace bs with (le_bytes 4 (narrow b)) by congruence. clear Hs.
+      split; [apply le_bytes_ok|]. exists (JFloat (widen (narrow b))). cbn [de_prim ser_prim as_f64].
+      assert (E4 : 4 = N.of_nat (length (le_bytes 4 (narrow b)))) by (rewrite le_bytes_length; reflexivity).
+      rewrite E4 at 1. rewrite take_n_app. cbn [dbind]. rewrite of_le_bytes_le_bytes. change (256 ^ N.of_nat 4) with (2 ^ 32).
+      rewrite N.mod_small by apply narrow_range. rewrite Ff. split; [reflexivity|].
+      rewrite narrow_widen by (try apply narrow_range; exact Ff). rewrite Ff. reflexivity.
+    - (* f64 *) destruct (as_f64 int_to_f64 j) as [b|] eqn:Ef; [|discriminate Hs]. replace bs with (le_bytes 8 b) by congruence. clear Hs.
+      assert (Hb : b < 2 ^ 64 /\ f64_finite b = true).
+      { destruct j; cbn [as_f64] in Ef; try discriminate Ef; injection Ef as <-; [apply int_to_f64_finite|].
+        cbn [json_wf] in Hwf. apply andb_prop in Hwf as [H1 H2]. apply N.ltb_lt in H1. split; assumption. }
+      destruct Hb as [Hlt Hfin].
+      split; [apply le_bytes_ok|]. exists (JFloat b). cbn [de_prim ser_prim as_f64].
+      assert (E8 : 8 = N.of_nat (length (le_bytes 8 b))) by (rewrite le_bytes_length; reflexivity).
+      rewrite E8 at 1. rewrite take_n_app. cbn [dbind]. rewrite of_le_bytes_le_bytes. change (256 ^ N.of_nat 8) with (2 ^ 64).
+      rewrite N.mod_small by exact Hlt. rewrite Hfin. split; reflexivity.
+    - (* char *) destruct j; try discriminate Hs. destruct (utf8_chars bs0) as [[|c [|? ?]]|] eqn:Ec; try discriminate Hs.
+      injection Hs as <-. cbn [json_wf] in Hwf. apply andb_prop in Hwf as [Hwf Hl]. apply andb_prop in Hwf as [Hb Hu].
+      apply N.ltb_lt in Hl. apply bytes_okb_spec in Hb. rewrite len_prefix_spec by exact Hl.
+      split; [apply bytes_ok_app; split; [apply spec_varint_bytes_ok|exact Hb]|].
+      exists (JStr bs0). cbn [de_prim ser_prim]. rewrite <- app_assoc, de_str_roundtrip by assumption. cbn [dbind]. rewrite Ec.
+      split; [reflexivity|]. rewrite len_prefix_spec by exact Hl. reflexivity.
+    - (* string *) destruct j; try discriminate Hs. injection Hs as <-.
+      cbn [json_wf] in Hwf. apply andb_prop in Hwf as [Hwf Hl]. apply andb_prop in Hwf as [Hb Hu].
+      apply N.ltb_lt in Hl. apply bytes_okb_spec in Hb. rewrite len_prefix_spec by exact Hl.
+      split; [apply bytes_ok_app; split; [apply spec_varint_bytes_ok|exact Hb]|].
+      exists (JStr bs0). cbn [de_prim ser_prim]. rewrite <- app_assoc, de_str_roundtrip by assumption. cbn [dbind].
+      split; [reflexivity|]. rewrite len_prefix_spec by exact Hl. reflexivity.
+    - (* byte array *) destruct j; try discriminate Hs. destruct (bytes_loop_inv l [] bs Hs) as (bytes & -> & Hok & Ebs).
+      cbn [json_wf] in Hwf. apply andb_prop in Hwf as [_ Hl]. apply N.leb_le in Hl. rewrite map_length in Hl.
+      apply (scalar_lift PByteArray (NBytes bytes) _ bs rest eq_refl); try assumption; try discriminate; try reflexivity.
+      cbn [prim_conforms erase prim_ty has_type]. apply andb_true_intro. split; [apply bytes_okb_spec; exact Hok|apply N.ltb_lt; lia].
+    - (* unit *) injection Hs as <-. split; [constructor|]. exists JNull. split; reflexivity.
+    - (* schema *) discriminate Hs.
+  Qed.
+
+  (* ---- what a decoder returns under a non-nullable schema is never JSON null ---- *)
+  Lemma de_non_null : forall s bs j r, schema_wf s = true -> nullable s = false -> DE s bs = DOk (j, r) -> j <> JNull.
+  Proof.
+    induction s as [p|t IH|t IH|ts IH|k v IHk IHv|n k fs IH|n vs IH] using schema_ind'; intros bs j r Hwf Hn H;
+      unfold DE in H; cbn [dyn_de] in H; rewrite de_no_panic_arm in H; fold DE in H.
+    - destruct p; cbn [nullable] in Hn; try discriminate Hn; cbn [de_prim] in H; cbv zeta in H;
+        repeat match type of H with
+               | dbind (if ?c then _ else _) _ = _ => destruct c; cbn [dbind] in H; try discriminate H
+               | dbind ?x _ = _ => let E := fresh "E" in destruct x as [[? ?]| | |] eqn:E; cbn [dbind] in H; try discriminate H
+               | (if ?c then _ else _) = _ => destruct c; try discriminate H
+               | match ?x with _ => _ end = _ => destruct x; try discriminate H
+               end; try discriminate H; try (injection H as <- _; discriminate).
+    - discriminate Hn.
+    - destruct (dusize bs) as [[cnt r0]| | |]; cbn [dbind] in H; try discriminate H.
+      destruct (de_repeat _ _ _ _ _) as [[js r1]| | |]; cbn [dbind] in H; try discriminate H. injection H as <- _. discriminate.
+    - destruct (de_all DE ts bs) as [[js r1]| | |]; cbn [dbind] in H; try discriminate H. injection H as <- _. discriminate.
+    - destruct k as [[]| | | | | |]; try discriminate H.
+      destruct (dusize bs) as [[cnt r0]| | |]; cbn [dbind] in H; try discriminate H.
+      destruct (de_entries _ _ _ _ _) as [[obj r1]| | |]; cbn [dbind] in H; try discriminate H. injection H as <- _. discriminate.
+    - cbn [schema_wf] in Hwf. apply andb_prop in Hwf as [Wd Wf]. destruct k; cbn [de_data nullable] in *.
+      + discriminate Hn.
+      + destruct fs as [|f [|? ?]]; try discriminate H. apply Forall_inv in IH. cbn [forallb] in Wf. apply andb_prop in Wf as [Wf _].
+        eapply IH; eassumption.
+      + destruct (de_snd_all DE fs bs) as [[js r1]| | |]; cbn [dbind] in H; try discriminate H. injection H as <- _. discriminate.
+      + destruct (de_fields DE fs [] bs) as [[obj r1]| | |]; cbn [dbind] in H; try discriminate H. injection H as <- _. discriminate.
+    - destruct (dusize bs) as [[idx r0]| | |]; cbn [dbind] in H; try discriminate H.
+      revert H. generalize (if idx <? N.of_nat (length vs) then N.to_nat idx else length vs) as i. clear IH Hwf Hn.
+      induction vs as [|v rest0 IHv]; intros i H; [destruct i; discriminate H|]. destruct i as [|i]; [|eapply IHv; exact H].
+      destruct (snd (fst v)); [injection H as <- _; discriminate|..];
+        (destruct (de_data DE _ (snd v) r0) as [[j0 r1]| | |]; cbn [dbind] in H; try discriminate H; injection H as <- _; discriminate).
+  Qed.
+
+  (* ---- objects built by insertion ---- *)
+  Definition ins_kj (acc : list (list byte * json)) (kj : list byte * json) := obj_insert (fst kj) (snd kj) acc.
+  Lemma fold_insert_kj (xs : list (list byte * json)) :
+    names_distinct (map fst xs) = true -> forall acc,
+    (forall f, In f xs -> obj_get (fst f) acc = None) ->
+    length (fold_left ins_kj xs acc) = (length acc + length xs)%nat /\
+    (forall f, In f xs -> obj_get (fst f) (fold_left ins_kj xs acc) = Some (snd f)).
+  Proof.
+    intros Hd acc Hnone.
+    assert (X : forall xs, names_distinct (map fst xs) = true -> forall acc,
+                (forall f : list byte * json, In f xs -> obj_get (fst f) acc = None) ->
+                length (fold_left ins_kj xs acc) = (length acc + length xs)%nat /\
+                (forall f, In f xs -> obj_get (fst f) (fold_left ins_kj xs acc) = Some (snd f)) /\
+                (forall k, (forall f, In f xs -> fst f <> k) -> obj_get k (fold_left ins_kj xs acc) = obj_get k acc)).
+    { clear. induction xs as [|x r IH]; intros Hd acc Hnone; cbn [fold_left length].
+      - split; [lia|]. split; [intros f []|reflexivity].
+      - cbn [map] in Hd. apply names_distinct_cons in Hd as [Hne Hd].
+        assert (Hnone' : forall f, In f r -> obj_get (fst f) (ins_kj acc x) = None).
+        { intros f Hf. unfold ins_kj. rewrite obj_get_insert_neq; [apply Hnone; right; exact Hf|].
+          apply Hne. apply in_map. exact Hf. }
+        destruct (IH Hd (ins_kj acc x) Hnone') as (L & G & O). split; [|split].
+        + rewrite L. unfold ins_kj. rewrite obj_insert_length_new by (apply Hnone; left; reflexivity). lia.
+        + intros f [<-|Hf]; [|apply G; exact Hf].
+          rewrite O; [unfold ins_kj; apply obj_get_insert_eq|].
+          intros g Hg E. apply (Hne (fst g)); [apply in_map; exact Hg|symmetry; exact E].
+        + intros k Hk. rewrite O by (intros f Hf; apply Hk; right; exact Hf).
+          unfold ins_kj. apply obj_get_insert_neq. apply Hk. left. reflexivity. }
+    destruct (X xs Hd acc Hnone) as (L & G & _). split; assumption.
+  Qed.
+
+  Lemma fold_insert_asc (xs : list (list byte * json)) :
+    keys_ascending (map fst xs) = true -> forall acc,
+    (forall e x, In e acc -> In x xs -> bytes_cmp (fst e) (fst x) = Lt) ->
+    fold_left ins_kj xs acc = acc ++ xs.
+  Proof.
+    induction xs as [|x r IH]; intros Ha acc Hlt; cbn [fold_left]; [rewrite app_nil_r; reflexivity|].
+    assert (Ha' : keys_ascending (map fst r) = true /\ forall y, In y r -> bytes_cmp (fst x) (fst y) = Lt).
+    { clear IH Hlt. revert x Ha. induction r as [|b r' IHr]; intros x Ha; [split; [reflexivity|intros ? []]|].
+      cbn [map keys_ascending] in Ha. destruct (bytes_cmp (fst x) (fst b)) eqn:E; try discriminate Ha.
+      split; [exact Ha|]. intros y [<-|Hin]; [exact E|].
+      destruct (IHr b Ha) as [_ Hall]. eapply bytes_cmp_trans; [exact E|apply Hall; exact Hin]. }
+    destruct Ha' as [Ha' Hfirst]. unfold ins_kj at 2. rewrite obj_insert_last.
+    2:{ apply Forall_forall. intros e He. apply (Hlt e x He (or_introl eq_refl)). }
+    rewrite IH; [|exact Ha'|].
+    - rewrite <- app_assoc. destruct x; reflexivity.
+    - intros e y He Hin. apply in_app_or in He as [He|[<-|[]]].
+      + apply Hlt; [exact He|right; exact Hin].
+      + cbn [fst]. apply Hfirst. exact Hin.
+  Qed.
+
+  Lemma obj_get_In k obj j : obj_get k obj = Some j -> exists k', In (k', j) obj.
+  Proof.
+    induction obj as [|[k' v] r IH]; cbn [obj_get]; [discriminate|].
+    destruct (list_N_eqb k k').
+    - intros [= <-]. exists k'. left. reflexivity.
+    - intros H. destruct (IH H) as [k2 Hin]. exists k2. right. exact Hin.
+  Qed.
+
+  Lemma dusize_len n rest : N.of_nat n < 2 ^ 64 -> bytes_ok rest ->
+    bytes_ok (len_prefix n) /\ dusize (len_prefix n ++ rest) = DOk (N.of_nat n, rest).
+  Proof.
+    intros Hn Hr. rewrite (len_prefix_spec n Hn). unfold spec_len. split; [apply spec_varint_bytes_ok|].
+    apply dusize_roundtrip; assumption.
+  Qed.
+
+  Lemma find_variant_inv name (vs : list (str * dkind * list (str * schema))) i k fs :
+    find_variant name vs = Some (i, k, fs) -> nth_error vs i = Some (name, k, fs).
+  Proof.
+    unfold find_variant.
+    assert (X : forall base j, (fix go (vs : list (str * dkind * list (str * schema))) (i : nat) :=
+                                match vs with
+                                | [] => None
+                                | v :: r => if list_N_eqb (fst (fst v)) name then Some (i, snd (fst v), snd v) else go r (S i)
+                                end) vs base = Some (j, k, fs) -> (base <= j)%nat /\ nth_error vs (j - base) = Some (name, k, fs)).
+    { induction vs as [|v r IH]; intros base j H; [discriminate H|].
+      destruct (list_N_eqb (fst (fst v)) name) eqn:E.
+      - injection H as <- <- <-. apply list_N_eqb_eq in E. split; [lia|]. rewrite Nat.sub_diag. cbn [nth_error].
+        destruct v as [[? ?] ?]. cbn [fst snd] in *. subst. reflexivity.
+      - destruct (IH (S base) j H) as [L N0]. split; [lia|]. replace (j - base)%nat with (S (j - S base)) by lia. exact N0. }
+    intros H. destruct (X 0%nat i H) as [_ N0]. rewrite Nat.sub_0_r in N0. exact N0.
+  Qed.
+
+  (* ---- sequences of sub-values ---- *)
+  Lemma each_reenc t : reenc_at t -> forall l bs rest,
+    forallb json_wf l = true -> ser_each (SER t) l = DOk bs -> bytes_ok rest ->
+    bytes_ok bs /\ exists l', length l' = length l /\
+      (forall fuel acc, (length l <= fuel)%nat -> de_repeat fuel (DE t) (N.of_nat (length l)) acc (bs ++ rest) = DOk (rev acc ++ l', rest)) /\
+      ser_each (SER t) l' = DOk bs.
+  Proof.
+    intros Ht. induction l as [|j r IH]; intros bs rest Hw Hs Hr.
+    - injection Hs as <-. split; [constructor|]. exists []. split; [reflexivity|]. split; [|reflexivity].
+      intros fuel acc _. destruct fuel; cbn [de_repeat length app]; rewrite app_nil_r; reflexivity.
+    - cbn [forallb] in Hw. apply andb_prop in Hw as [Hw1 Hw2]. cbn [ser_each] in Hs.
+      destruct (SER t j) as [a| | |] eqn:Ea; try discriminate Hs. cbn [dbind] in Hs.
+      destruct (ser_each (SER t) r) as [b| | |] eqn:Eb; try discriminate Hs. cbn [dbind] in Hs. injection Hs as <-.
+      destruct (IH b rest Hw2 eq_refl Hr) as (Hb & l' & Hl & Hde & Hse).
+      assert (Hok : bytes_ok (b ++ rest)) by (apply bytes_ok_app; split; assumption).
+      destruct (Ht j a (b ++ rest) Hw1 Ea Hok) as (Ha & j' & Hdj & Hsj).
+      split; [apply bytes_ok_app; split; assumption|]. exists (j' :: l'). split; [cbn [length]; congruence|]. split.
+      + intros fuel acc Hf. destruct fuel as [|fuel]; [cbn [length] in Hf; lia|]. cbn [de_repeat].
+        replace (N.of_nat (length (j :: r)) =? 0) with false by (symmetry; apply N.eqb_neq; cbn [length]; lia).
+        rewrite <- app_assoc, Hdj. cbn [dbind].
+        replace (N.of_nat (length (j :: r)) - 1) with (N.of_nat (length r)) by (cbn [length]; lia).
+        rewrite (Hde fuel (j' :: acc) ltac:(cbn [length] in Hf; lia)). cbn [rev]. rewrite <- app_assoc. reflexivity.
+      + cbn [ser_each]. rewrite Hsj. cbn [dbind]. rewrite Hse. reflexivity.
+  Qed.
+
+  Lemma zip_reenc ts : Forall reenc_at ts -> forall l bs rest, length l = length ts ->
+    forallb json_wf l = true -> ser_zip SER ts l = DOk bs -> bytes_ok rest ->
+    bytes_ok bs /\ exists l', length l' = length ts /\ de_all DE ts (bs ++ rest) = DOk (l', rest) /\ ser_zip SER ts l' = DOk bs.
+  Proof.
+    induction 1 as [|t ts Ht _ IH]; intros [|j r] bs rest Hl Hw Hs Hr; try discriminate Hl.
+    - injection Hs as <-. split; [constructor|]. exists []. repeat split.
+    - cbn [forallb] in Hw. apply andb_prop in Hw as [Hw1 Hw2]. cbn [ser_zip] in Hs.
+      destruct (SER t j) as [a| | |] eqn:Ea; try discriminate Hs. cbn [dbind] in Hs.
+      destruct (ser_zip SER ts r) as [b| | |] eqn:Eb; try discriminate Hs. cbn [dbind] in Hs. injection Hs as <-.
+      destruct (IH r b rest ltac:(cbn [length] in Hl; lia) Hw2 Eb Hr) as (Hb & l' & Hl' & Hde & Hse).
+      assert (Hok : bytes_ok (b ++ rest)) by (apply bytes_ok_app; split; assumption).
+      destruct (Ht j a (b ++ rest) Hw1 Ea Hok) as (Ha & j' & Hdj & Hsj).
+      split; [apply bytes_ok_app; split; assumption|]. exists (j' :: l'). split; [cbn [length]; congruence|]. split.
+      + cbn [de_all]. rewrite <- app_assoc, Hdj. cbn [dbind]. rewrite Hde. reflexivity.
+      + cbn [ser_zip]. rewrite Hsj. cbn [dbind]. rewrite Hse. reflexivity.
+  Qed.
+
+  Lemma snd_zip_reenc (fs : list (str * schema)) : Forall (fun f => reenc_at (snd f)) fs -> forall l bs rest, length l = length fs ->
+    forallb json_wf l = true -> ser_snd_zip SER fs l = DOk bs -> bytes_ok rest ->
+    bytes_ok bs /\ exists l', length l' = length fs /\ de_snd_all DE fs (bs ++ rest) = DOk (l', rest) /\ ser_snd_zip SER fs l' = DOk bs.
+  Proof.
+    induction 1 as [|t ts Ht _ IH]; intros [|j r] bs rest Hl Hw Hs Hr; try discriminate Hl.
+    - injection Hs as <-. split; [constructor|]. exists []. repeat split.
+    - cbn [forallb] in Hw. apply andb_prop in Hw as [Hw1 Hw2]. cbn [ser_snd_zip] in Hs.
+      destruct (SER (snd t) j) as [a| | |] eqn:Ea; try discriminate Hs. cbn [dbind] in Hs.
+      destruct (ser_snd_zip SER ts r) as [b| | |] eqn:Eb; try discriminate Hs. cbn [dbind] in Hs. injection Hs as <-.
+      destruct (IH r b rest ltac:(cbn [length] in Hl; lia) Hw2 Eb Hr) as (Hb & l' & Hl' & Hde & Hse).
+      assert (Hok : bytes_ok (b ++ rest)) by (apply bytes_ok_app; split; assumption).
+      destruct (Ht j a (b ++ rest) Hw1 Ea Hok) as (Ha & j' & Hdj & Hsj).
+      split; [apply bytes_ok_app; split; assumption|]. exists (j' :: l'). split; [cbn [length]; congruence|]. split.
+      + cbn [de_snd_all]. rewrite <- app_assoc, Hdj. cbn [dbind]. rewrite Hde. reflexivity.
+      + cbn [ser_snd_zip]. rewrite Hsj. cbn [dbind]. rewrite Hse. reflexivity.
+  Qed.
+
+  Lemma fields_reenc (fs : list (str * schema)) : Forall (fun f => reenc_at (snd f)) fs -> forall obj bs rest,
+    (forall k j, In (k, j) obj -> json_wf j = true) -> ser_fields SER fs obj = DOk bs -> bytes_ok rest ->
+    bytes_ok bs /\ exists xs : list (list byte * json), map fst xs = map fst fs /\
+      (forall acc, de_fields DE fs acc (bs ++ rest) = DOk (fold_left ins_kj xs acc, rest)) /\
+      (forall obj', (forall x, In x xs -> obj_get (fst x) obj' = Some (snd x)) -> ser_fields SER fs obj' = DOk bs).
+  Proof.
+    induction 1 as [|f r Hf _ IH]; intros obj bs rest Hw Hs Hr.
+    - injection Hs as <-. split; [constructor|]. exists []. repeat split.
+    - cbn [ser_fields] in Hs. destruct (obj_get (fst f) obj) as [j|] eqn:Eg; try discriminate Hs.
+      destruct (SER (snd f) j) as [a| | |] eqn:Ea; try discriminate Hs. cbn [dbind] in Hs.
+      destruct (ser_fields SER r obj) as [b| | |] eqn:Eb; try discriminate Hs. cbn [dbind] in Hs. injection Hs as <-.
+      destruct (IH obj b rest Hw Eb Hr) as (Hb & xs & Hx & Hde & Hse).
+      assert (Hok : bytes_ok (b ++ rest)) by (apply bytes_ok_app; split; assumption).
+      destruct (obj_get_In _ _ _ Eg) as [k' Hin].
+      destruct (Hf j a (b ++ rest) (Hw k' j Hin) Ea Hok) as (Ha & j' & Hdj & Hsj).
+      split; [apply bytes_ok_app; split; assumption|]. exists ((fst f, j') :: xs). split; [cbn [map fst]; congruence|]. split.
+      + intros acc. cbn [de_fields]. rewrite <- app_assoc, Hdj. cbn [dbind]. rewrite Hde. reflexivity.
+      + intros obj' Hg. cbn [ser_fields]. pose proof (Hg (fst f, j') (or_introl eq_refl)) as Hg0. cbn [fst snd] in Hg0. rewrite Hg0, Hsj. cbn [dbind].
+        rewrite (Hse obj' (fun x Hxin => Hg x (or_intror Hxin))). reflexivity.
+  Qed.
+
+  Definition kv_wf (kv : list byte * json) : bool :=
+    bytes_okb (fst kv) && utf8_valid (fst kv) && (N.of_nat (length (fst kv)) <? 2 ^ 64) && json_wf (snd kv).
+  Lemma entries_reenc t : reenc_at t -> forall obj bs rest,
+    forallb kv_wf obj = true -> ser_entries (SER t) obj = DOk bs -> bytes_ok rest ->
+    bytes_ok bs /\ exists obj', map fst obj' = map fst obj /\
+      (forall fuel acc, (length obj <= fuel)%nat ->
+         de_entries fuel (DE t) (N.of_nat (length obj)) acc (bs ++ rest) = DOk (fold_left ins_kj obj' acc, rest)) /\
+      ser_entries (SER t) obj' = DOk bs.
+  Proof.
+    intros Ht. induction obj as [|[k j] r IH]; intros bs rest Hw Hs Hr.
+    - injection Hs as <-. split; [constructor|]. exists []. split; [reflexivity|]. split; [|reflexivity].
+      intros fuel acc _. destruct fuel; reflexivity.
+    - cbn [forallb] in Hw. apply andb_prop in Hw as [Hw1 Hw2]. unfold kv_wf in Hw1. cbn [fst snd] in Hw1.
+      apply andb_prop in Hw1 as [Hw1 Hwj]. apply andb_prop in Hw1 as [Hw1 Hkl]. apply andb_prop in Hw1 as [Hkb Hku].
+      apply N.ltb_lt in Hkl. apply bytes_okb_spec in Hkb.
+      cbn [ser_entries] in Hs.
+      destruct (SER t j) as [a| | |] eqn:Ea; try discriminate Hs. cbn [dbind] in Hs.
+      destruct (ser_entries (SER t) r) as [b| | |] eqn:Eb; try discriminate Hs. cbn [dbind] in Hs. injection Hs as <-.
+      destruct (IH b rest Hw2 eq_refl Hr) as (Hb & obj' & Hk & Hde & Hse).
+      assert (Hok : bytes_ok (b ++ rest)) by (apply bytes_ok_app; split; assumption).
+      destruct (Ht j a (b ++ rest) Hwj Ea Hok) as (Ha & j' & Hdj & Hsj).
+      rewrite (len_prefix_spec (length k) Hkl).
+      split.
+      { apply bytes_ok_app; split; [apply spec_varint_bytes_ok|]. apply bytes_ok_app; split; [exact Hkb|].
+        apply bytes_ok_app; split; assumption. }
+      exists ((k, j') :: obj'). split; [cbn [map fst]; congruence|]. split.
+      + intros fuel acc Hf. destruct fuel as [|fuel]; [cbn [length] in Hf; lia|]. cbn [de_entries].
+        replace (N.of_nat (length ((k, j) :: r)) =? 0) with false by (symmetry; apply N.eqb_neq; cbn [length]; lia).
+        rewrite <- !app_assoc. rewrite de_str_roundtrip; [|exact Hkb|exact Hku|exact Hkl|].
+        2:{ apply bytes_ok_app; split; [exact Ha|exact Hok]. }
+        cbn [dbind]. rewrite Hdj. cbn [dbind].
+        replace (N.of_nat (length ((k, j) :: r)) - 1) with (N.of_nat (length r)) by (cbn [length]; lia).
+        rewrite (Hde fuel _ ltac:(cbn [length] in Hf; lia)). reflexivity.
+      + cbn [ser_entries]. rewrite Hsj. cbn [dbind]. rewrite Hse. cbn [dbind]. rewrite (len_prefix_spec (length k) Hkl). reflexivity.
+  Qed.
+
+  (* ---- struct and variant bodies ---- *)
+  Lemma data_reenc k (fs : list (str * schema)) : Forall (fun f => reenc_at (snd f)) fs ->
+    (k = DStruct -> names_distinct (map fst fs) = true) -> forall j bs rest,
+    json_wf j = true -> ser_data SER k fs j = DOk bs -> bytes_ok rest ->
+    bytes_ok bs /\ exists j', de_data DE k fs (bs ++ rest) = DOk (j', rest) /\ ser_data SER k fs j' = DOk bs.
+  Proof.
+    intros Hfs Hd j bs rest Hw Hs Hr. destruct k; cbn [ser_data de_data] in *.
+    - injection Hs as <-. split; [constructor|]. exists JNull. split; reflexivity.
+    - destruct fs as [|f [|? ?]]; try discriminate Hs. apply Forall_inv in Hfs. apply (Hfs j bs rest Hw Hs Hr).
+    - destruct j as [| | | | |l|]; try discriminate Hs. destruct (Nat.eqb_spec (length l) (length fs)) as [El|]; try discriminate Hs.
+      cbn [json_wf] in Hw. apply andb_prop in Hw as [Hw _].
+      destruct (snd_zip_reenc fs Hfs l bs rest El Hw Hs Hr) as (Hb & l' & Hl' & Hde & Hse).
+      split; [exact Hb|]. exists (JArr l'). rewrite Hde. cbn [dbind]. split; [reflexivity|].
+      rewrite Hl', Nat.eqb_refl. exact Hse.
+    - destruct j as [| | | | | |obj]; try discriminate Hs. destruct (Nat.eqb_spec (length obj) (length fs)) as [El|]; try discriminate Hs.
+      cbn [json_wf] in Hw. apply andb_prop in Hw as [Hw _]. apply andb_prop in Hw as [Hw _].
+      assert (Hwj : forall k j, In (k, j) obj -> json_wf j = true).
+      { intros k0 j0 Hin. rewrite forallb_forall in Hw. specialize (Hw _ Hin). cbn [fst snd] in Hw.
+        apply andb_prop in Hw as [_ Hw]. exact Hw. }
+      destruct (fields_reenc fs Hfs obj bs rest Hwj Hs Hr) as (Hb & xs & Hx & Hde & Hse).
+      split; [exact Hb|]. exists (JObj (fold_left ins_kj xs [])). rewrite Hde. cbn [dbind]. split; [reflexivity|].
+      assert (Hdx : names_distinct (map fst xs) = true) by (rewrite Hx; apply Hd; reflexivity).
+      destruct (fold_insert_kj xs Hdx [] (fun f _ => eq_refl)) as [L G].
+      rewrite L. cbn [length plus]. rewrite <- (map_length fst xs), Hx, map_length, Nat.eqb_refl.
+      apply Hse. exact G.
+  Qed.
+
+  Lemma lift_fields (P : schema -> Prop) (fs : list (str * schema)) :
+    Forall (fun f => schema_wf (snd f) = true -> reenc_scope (snd f) = true -> reenc_at (snd f)) fs ->
+    forallb (fun f => schema_wf (snd f)) fs = true -> forallb (fun f => reenc_scope (snd f)) fs = true ->
+    Forall (fun f => reenc_at (snd f)) fs.
+  Proof.
+    induction 1 as [|f r Hf _ IH]; intros Hw Hs; [constructor|]. cbn [forallb] in Hw, Hs.
+    apply andb_prop in Hw as [Hw1 Hw2]. apply andb_prop in Hs as [Hs1 Hs2]. constructor; [apply Hf; assumption|apply IH; assumption].
+  Qed.
+
+  (* ---- the two variant walks, by position ---- *)
+  Lemma ser_enum_obj n vs name payload :
+    SER (SEnum n vs) (JObj [(name, payload)]) =
+    match find_variant name vs with
+    | Some (i, k, fs) => dlet a := ser_data SER k fs payload in DOk (len_prefix i ++ a)
+    | None => mismatch
+    end.
+  Proof.
+    unfold SER. cbn [dyn_ser]. rewrite ser_no_panic_arm. fold SER.
+    destruct (find_variant name vs) as [[[i k] fs]|] eqn:E; [|reflexivity]. apply find_variant_inv in E.
+    f_equal. revert i E. induction vs as [|v r IH]; intros [|i] E; try discriminate E.
+    - injection E as ->. reflexivity.
+    - apply IH. exact E.
+  Qed.
+
+  Lemma de_enum n vs bs :
+    DE (SEnum n vs) bs =
+    dlet '(idx, r) := dusize bs in
+    match nth_error vs (if idx <? N.of_nat (length vs) then N.to_nat idx else length vs) with
+    | Some v => match snd (fst v) with
+                | DUnit => DOk (JStr (fst (fst v)), r)
+                | k => dlet '(j, r') := de_data DE k (snd v) r in DOk (JObj [(fst (fst v), j)], r')
+                end
+    | None => DErr DynSchemaMismatch
+    end.
+  Proof.
+    unfold DE. cbn [dyn_de]. rewrite de_no_panic_arm. fold DE.
+    destruct (dusize bs) as [[idx r]| | |]; cbn [dbind]; try reflexivity.
+    generalize (if idx <? N.of_nat (length vs) then N.to_nat idx else length vs) as i.
+    induction vs as [|v r0 IH]; intros [|i]; try reflexivity. apply IH.
+  Qed.
+
+  (* ---- the theorem ---- *)
+  Theorem reenc : forall s, schema_wf s = true -> reenc_scope s = true -> reenc_at s.
+  Proof.
+    induction s as [p|t IH|t IH|ts IH|k v IHk IHv|n k fs IH|n vs IH] using schema_ind'; intros Hwf Hsc.
+    - apply prim_reenc.
+    - cbn [schema_wf reenc_scope] in Hwf, Hsc. apply andb_prop in Hsc as [Hnn Hsc]. apply negb_true_iff in Hnn.
+      specialize (IH Hwf Hsc). intros j bs rest Hw Hs Hr. unfold SER in Hs. cbn [dyn_ser] in Hs. rewrite ser_no_panic_arm in Hs. fold SER in Hs.
+      assert (Hnone : DE (SOption t) (0 :: rest) = DOk (JNull, rest)).
+      { unfold DE. cbn [dyn_de]. rewrite de_no_panic_arm. reflexivity. }
+      assert (Hsome : forall a, DE (SOption t) ((1 :: a) ++ rest) = DE t (a ++ rest)).
+      { intros a. unfold DE. cbn [dyn_de]. rewrite de_no_panic_arm. reflexivity. }
+      assert (Hser : forall j', j' <> JNull -> SER (SOption t) j' = dlet a := SER t j' in DOk (1 :: a)).
+      { intros j' Hj. unfold SER. cbn [dyn_ser]. rewrite ser_no_panic_arm. destruct j'; try reflexivity. exfalso; apply Hj; reflexivity. }
+      assert (Hcase : j = JNull \/ (j <> JNull /\ exists a, SER t j = DOk a /\ bs = 1 :: a)).
+      { destruct j; [left; reflexivity|..]; right; (split; [discriminate|]);
+          (destruct (SER t _) as [a| | |]; try discriminate Hs; cbn [dbind] in Hs; injection Hs as <-; exists a; split; reflexivity). }
+      destruct Hcase as [->|(Hj & a & Ea & ->)].
+      + injection Hs as <-. split; [repeat constructor|]. exists JNull. split; [apply Hnone|].
+        unfold SER. cbn [dyn_ser]. rewrite ser_no_panic_arm. reflexivity.
+      + destruct (IH j a rest Hw Ea Hr) as (Ha & j' & Hde & Hse).
+        split; [constructor; [reflexivity|exact Ha]|]. exists j'. rewrite Hsome. split; [exact Hde|].
+        rewrite Hser; [rewrite Hse; reflexivity|]. eapply de_non_null; eassumption.
+    - cbn [schema_wf reenc_scope] in Hwf, Hsc. specialize (IH Hwf Hsc). intros j bs rest Hw Hs Hr.
+      unfold SER in Hs. cbn [dyn_ser] in Hs. rewrite ser_no_panic_arm in Hs. fold SER in Hs.
+      destruct j as [| | | | |l|]; try discriminate Hs. cbn [json_wf] in Hw. apply andb_prop in Hw as [Hw Hlen]. apply N.leb_le in Hlen.
+      destruct (ser_each (SER t) l) as [a| | |] eqn:Ea; try discriminate Hs. cbn [dbind] in Hs. injection Hs as <-.
+      destruct (each_reenc t IH l a rest Hw Ea Hr) as (Ha & l' & Hl' & Hde & Hse).
+      assert (Hok : bytes_ok (a ++ rest)) by (apply bytes_ok_app; split; assumption).
+      destruct (dusize_len (length l) (a ++ rest) ltac:(lia) Hok) as [Hp Hdu].
+      split; [apply bytes_ok_app; split; assumption|]. exists (JArr l'). split.
+      + unfold DE. cbn [dyn_de]. rewrite de_no_panic_arm. fold DE. rewrite <- app_assoc, Hdu. cbn [dbind].
+        rewrite Hde; [reflexivity|]. rewrite <- (Nat2N.id (length l)) at 1. apply loop_fuel_enough. exact Hlen.
+      + unfold SER. cbn [dyn_ser]. rewrite ser_no_panic_arm. fold SER. rewrite Hse, Hl'. reflexivity.
+    - cbn [schema_wf reenc_scope] in Hwf, Hsc.
+      assert (Hts : Forall reenc_at ts).
+      { clear -IH Hwf Hsc. induction IH as [|t r Ht _ IHr]; [constructor|]. cbn [forallb] in Hwf, Hsc.
+        apply andb_prop in Hwf as [W1 W2]. apply andb_prop in Hsc as [S1 S2]. constructor; [apply Ht; assumption|apply IHr; assumption]. }
+      intros j bs rest Hw Hs Hr. unfold SER in Hs. cbn [dyn_ser] in Hs. rewrite ser_no_panic_arm in Hs. fold SER in Hs.
+      destruct j as [| | | | |l|]; try discriminate Hs. destruct (Nat.eqb_spec (length l) (length ts)) as [El|]; try discriminate Hs.
+      cbn [json_wf] in Hw. apply andb_prop in Hw as [Hw _].
+      destruct (zip_reenc ts Hts l bs rest El Hw Hs Hr) as (Hb & l' & Hl' & Hde & Hse).
+      split; [exact Hb|]. exists (JArr l'). split.
+      + unfold DE. cbn [dyn_de]. rewrite de_no_panic_arm. fold DE. rewrite Hde. reflexivity.
+      + unfold SER. cbn [dyn_ser]. rewrite ser_no_panic_arm. fold SER. rewrite Hl', Nat.eqb_refl. exact Hse.
+    - cbn [schema_wf reenc_scope] in Hwf, Hsc. apply andb_prop in Hwf as [_ Hwv]. specialize (IHv Hwv Hsc).
+      intros j bs rest Hw Hs Hr. unfold SER in Hs. cbn [dyn_ser] in Hs. rewrite ser_no_panic_arm in Hs. fold SER in Hs.
+      destruct k as [[]| | | | | |]; try discriminate Hs.
+      destruct j as [| | | | | |obj]; try discriminate Hs. cbn [json_wf] in Hw. apply andb_prop in Hw as [Hw Hlen]. apply N.leb_le in Hlen.
+      apply andb_prop in Hw as [Hw Hasc].
+      destruct (ser_entries (SER v) obj) as [a| | |] eqn:Ea; try discriminate Hs. cbn [dbind] in Hs. injection Hs as <-.
+      destruct (entries_reenc v IHv obj a rest Hw Ea Hr) as (Ha & obj' & Hk & Hde & Hse).
+      assert (Hok : bytes_ok (a ++ rest)) by (apply bytes_ok_app; split; assumption).
+      destruct (dusize_len (length obj) (a ++ rest) ltac:(lia) Hok) as [Hp Hdu].
+      assert (Hfold : fold_left ins_kj obj' [] = obj').
+      { rewrite fold_insert_asc; [reflexivity|rewrite Hk; exact Hasc|intros e x []]. }
+      split; [apply bytes_ok_app; split; assumption|]. exists (JObj obj'). split.
+      + unfold DE. cbn [dyn_de]. rewrite de_no_panic_arm. fold DE. rewrite <- app_assoc, Hdu. cbn [dbind].
+        rewrite Hde; [rewrite Hfold; reflexivity|]. rewrite <- (Nat2N.id (length obj)) at 1. apply loop_fuel_enough. exact Hlen.
+      + unfold SER. cbn [dyn_ser]. rewrite ser_no_panic_arm. fold SER. rewrite Hse. cbn [dbind].
+        rewrite <- (map_length fst obj'), Hk, map_length. reflexivity.
+    - cbn [schema_wf reenc_scope] in Hwf, Hsc. apply andb_prop in Hwf as [_ Hwf]. unfold body_ok in Hsc. apply andb_prop in Hsc as [Hsc Hd].
+      pose proof (lift_fields (fun _ => True) fs IH Hwf Hsc) as Hfs.
+      intros j bs rest Hw Hs Hr. unfold SER in Hs. cbn [dyn_ser] in Hs. rewrite ser_no_panic_arm in Hs. fold SER in Hs.
+      destruct (data_reenc k fs Hfs ltac:(intros ->; exact Hd) j bs rest Hw Hs Hr) as (Hb & j' & Hde & Hse).
+      split; [exact Hb|]. exists j'. split.
+      + unfold DE. cbn [dyn_de]. rewrite de_no_panic_arm. fold DE. exact Hde.
+      + unfold SER. cbn [dyn_ser]. rewrite ser_no_panic_arm. fold SER. exact Hse.
+    - cbn [schema_wf reenc_scope] in Hwf, Hsc. apply andb_prop in Hsc as [Hsc Hcnt]. apply N.ltb_lt in Hcnt.
+      assert (Hbody : forall i name k fs, nth_error vs i = Some (name, k, fs) ->
+                N.of_nat i < 2 ^ 64 /\ (i < length vs)%nat /\ Forall (fun f => reenc_at (snd f)) fs /\ (k = DStruct -> names_distinct (map fst fs) = true)).
+      { intros i name k fs Hn. assert (Hi : (i < length vs)%nat) by (apply nth_error_Some; congruence).
+        apply nth_error_In in Hn. rewrite Forall_forall in IH. rewrite forallb_forall in Hwf, Hsc.
+        specialize (IH _ Hn). specialize (Hwf _ Hn). specialize (Hsc _ Hn). cbn [fst snd] in *.
+        apply andb_prop in Hwf as [_ Hwf]. unfold body_ok in Hsc. apply andb_prop in Hsc as [Hsc Hd].
+        split; [lia|]. split; [exact Hi|]. split; [apply (lift_fields (fun _ => True) fs IH Hwf Hsc)|intros ->; exact Hd]. }
+      intros j bs rest Hw Hs Hr.
+      assert (Hstr : forall name, SER (SEnum n vs) (JStr name) =
+                match find_variant name vs with Some (i, DUnit, _) => DOk (len_prefix i) | _ => mismatch end).
+      { intros name. unfold SER. cbn [dyn_ser]. rewrite ser_no_panic_arm.
+        destruct (find_variant name vs) as [[[i []] fs]|]; reflexivity. }
+      destruct j as [| | | |name| |[|[name payload] [|? ?]]]; try (unfold SER in Hs; cbn [dyn_ser] in Hs; rewrite ser_no_panic_arm in Hs; discriminate Hs).
+      + rewrite Hstr in Hs. destruct (find_variant name vs) as [[[i k] fs]|] eqn:Ef; try discriminate Hs.
+        destruct k; try discriminate Hs. injection Hs as <-. pose proof (find_variant_inv _ _ _ _ _ Ef) as Hn.
+        destruct (Hbody _ _ _ _ Hn) as (Hi & Hlt & _ & _).
+        destruct (dusize_len i rest Hi Hr) as [Hp Hdu]. split; [exact Hp|]. exists (JStr name). split.
+        * rewrite de_enum, Hdu. cbn [dbind]. replace (N.of_nat i <? N.of_nat (length vs)) with true by (symmetry; apply N.ltb_lt; lia).
+          rewrite Nat2N.id, Hn. reflexivity.
+        * rewrite Hstr, Ef. reflexivity.
+      + rewrite ser_enum_obj in Hs. destruct (find_variant name vs) as [[[i k] fs]|] eqn:Ef; try discriminate Hs.
+        destruct (ser_data SER k fs payload) as [a| | |] eqn:Ea; try discriminate Hs. cbn [dbind] in Hs. injection Hs as <-.
+        pose proof (find_variant_inv _ _ _ _ _ Ef) as Hn. destruct (Hbody _ _ _ _ Hn) as (Hi & Hlt & Hfs & Hd).
+        cbn [json_wf forallb fst snd] in Hw. apply andb_prop in Hw as [Hw _]. apply andb_prop in Hw as [Hw _].
+        apply andb_prop in Hw as [Hw _]. apply andb_prop in Hw as [_ Hwp].
+        destruct (data_reenc k fs Hfs Hd payload a rest Hwp Ea Hr) as (Ha & j' & Hde & Hse).
+        assert (Hok : bytes_ok (a ++ rest)) by (apply bytes_ok_app; split; assumption).
+        destruct (dusize_len i (a ++ rest) Hi Hok) as [Hp Hdu]. split; [apply bytes_ok_app; split; assumption|].
+        assert (Hdec : DE (SEnum n vs) ((len_prefix i ++ a) ++ rest) =
+                  match k with DUnit => DOk (JStr name, a ++ rest)
+                          | _ => dlet '(j, r') := de_data DE k fs (a ++ rest) in DOk (JObj [(name, j)], r') end).
+        { rewrite de_enum, <- app_assoc, Hdu. cbn [dbind].
+          replace (N.of_nat i <? N.of_nat (length vs)) with true by (symmetry; apply N.ltb_lt; lia).
+          rewrite Nat2N.id, Hn. cbn [fst snd]. destruct k; reflexivity. }
+        destruct k.
+        * cbn [ser_data] in Ea. injection Ea as <-. exists (JStr name). rewrite Hdec. split; [reflexivity|].
+          rewrite Hstr, Ef, app_nil_r. reflexivity.
+        * exists (JObj [(name, j')]). rewrite Hdec, Hde. cbn [dbind]. split; [reflexivity|].
+          rewrite ser_enum_obj, Ef, Hse. reflexivity.
+        * exists (JObj [(name, j')]). rewrite Hdec, Hde. cbn [dbind]. split; [reflexivity|].
+          rewrite ser_enum_obj, Ef, Hse. reflexivity.
+        * exists (JObj [(name, j')]). rewrite Hdec, Hde. cbn [dbind]. split; [reflexivity|].
+          rewrite ser_enum_obj, Ef, Hse. reflexivity.
+  Qed.
 End Reenc.
+
+(* the statement without the section's abbreviations *)
+Theorem reencode int_to_f64 narrow widen :
+  (forall b, b < 2 ^ 32 -> f32_finite b = true -> narrow (widen b) = b) ->
+  (forall b, narrow b < 2 ^ 32) ->
+  (forall z, int_to_f64 z < 2 ^ 64 /\ f64_finite (int_to_f64 z) = true) ->
+  forall s j bs, schema_wf s = true -> reenc_scope s = true -> json_wf j = true ->
+  dyn_ser int_to_f64 narrow s j = DOk bs ->
+  exists j', from_slice_dyn widen s bs = DOk j' /\ dyn_ser int_to_f64 narrow s j' = DOk bs.
+Proof.
+  intros H1 H2 H3 s j bs Hwf Hsc Hw Hs.
+  destruct (reenc int_to_f64 narrow widen H1 H2 H3 s Hwf Hsc j bs [] Hw Hs ltac:(constructor)) as (_ & j' & Hde & Hse).
+  exists j'. split; [|exact Hse]. unfold from_slice_dyn. rewrite app_nil_r in Hde. rewrite Hde. reflexivity.
+Qed.
